@@ -327,6 +327,31 @@ Notation mat K := (list (list K)) (only parsing).
 Notation tenv K := (nat -> list K) (only parsing).
 Notation cenv K := (nat -> option (list K)) (only parsing).
 
+(* ---- error dispatch of Module.response / Module.sensitivity / add_sensitivity (malformed stream of the check):
+   only the CLASS of the exception is modelled *)
+Inductive errclass : Type := ENone | ETypeError | EValueError | EIndexError | EAssertionError | ERuntimeError | EOther.
+Definition errclass_eqb (a b : errclass) : bool :=
+  match a, b with
+  | ENone, ENone | ETypeError, ETypeError | EValueError, EValueError | EIndexError, EIndexError
+  | EAssertionError, EAssertionError | ERuntimeError, ERuntimeError | EOther, EOther => true
+  | _, _ => false
+  end.
+(* if len(state_out) != len(self.sig_out): raise TypeError *)
+Definition resp_count_err (nret nouts : nat) : errclass := if Nat.eqb nret nouts then ENone else ETypeError.
+(* a module none of whose outputs is seeded is skipped; else if len(sens_out) != len(self.sig_in): raise TypeError *)
+Definition sens_count_err (seeded : bool) (nret nins : nat) : errclass :=
+  if seeded then (if Nat.eqb nret nins then ENone else ETypeError) else ENone.
+(* base.state[slice] with an integer-array index: IndexError when a position is outside the base *)
+Definition slice_read_err (n : nat) (idx : list nat) : errclass :=
+  if forallb (fun i => Nat.ltb i n) idx then ENone else EIndexError.
+(* add_sensitivity of a 1-D contribution of length d: the first contribution to a Signal is deep-copied whatever its
+   shape; `sensitivity += ds` needs d to broadcast to the present length n (d = n or d = 1), else ValueError *)
+Definition add_err (present : option nat) (d : nat) : errclass :=
+  match present with
+  | None => ENone
+  | Some n => if Nat.eqb n d || Nat.eqb d 1 then ENone else EValueError
+  end.
+
 (* ---- concrete instances over Z used by Props/C02.v (definitions only) *)
 Definition mkL (i o : list nat) (n : list bool) (b : list (nat * nat * list (list Z))) : lin Z :=
   {| l_idims := i; l_odims := o; l_none := n; l_blocks := b |}.
